@@ -3,6 +3,7 @@ package main
 import (
 	"bytes"
 	"fmt"
+	"math"
 	"os"
 	"os/exec"
 	"path/filepath"
@@ -263,8 +264,12 @@ func c17Characters(c *Ctx, sample bool) {
 	c.Distinct("nontrivial", strings.Join(args, " "))
 	if entropy {
 		want := fmt.Sprintf("%.2f", rec.Entropy())
-		if lines[0] != want {
-			c.Violate("entropy-line-wrong", fmt.Sprintf("opgen %q printed %q, the equivalent recipe %s has entropy %s", args, lines[0], descChar(rec), want), det)
+		// independently of the library: log2 of the exact number of satisfying passwords
+		ref := oracle.Log2Big(sem.Count(sem.Length))
+		var printed float64
+		_, perr := fmt.Sscanf(lines[0], "%f", &printed)
+		if lines[0] != want || perr != nil || math.Abs(printed-ref) > 0.0051+oracle.Ulp32(ref) {
+			c.Violate("entropy-line-wrong", fmt.Sprintf("opgen %q printed %q; the equivalent library recipe %s reports %s, log2 of the exact count is %.4f", args, lines[0], descChar(rec), want, ref), det)
 		}
 		c.Count("entropy_lines_confirmed", 1)
 		return
@@ -336,6 +341,7 @@ var c17FileLists = [][]string{
 	{"Polish", "March", "may"},
 	{"語", "漢字", "かな", "語"},
 	{"100%", "a%sb", "%d", "50%off", "plain"},
+	{"caf\xe9", "\xe9clair", "na\xefve", "plain", "\xfcber"},
 	{"back\\slash", "quo\"te", "tab", "$HOME", "`cmd`"},
 }
 
@@ -466,8 +472,24 @@ func c17Words(c *Ctx, sample bool) {
 			rec.SeparatorFunc = func() (string, spg.FloatE) { return v, 0 }
 		}
 		want := fmt.Sprintf("%.2f", rec.Entropy())
-		if lines[0] != want {
-			c.Violate("entropy-line-wrong", fmt.Sprintf("opgen %q printed %q, the equivalent library recipe has entropy %s", args, lines[0], want), det)
+		// independently of the library: the documented formula over the normalised list
+		L := float64(size)
+		ref := L * math.Log2(float64(len(kept)))
+		if oracle.AllCapitalizable(kept) {
+			switch scheme {
+			case "random":
+				ref += L
+			case "one":
+				ref += math.Log2(L)
+			}
+		}
+		if sepWord == "digit" {
+			ref += (L - 1) * math.Log2(10)
+		}
+		var printed float64
+		_, perr := fmt.Sscanf(lines[0], "%f", &printed)
+		if lines[0] != want || perr != nil || math.Abs(printed-ref) > 0.0051+4*oracle.Ulp32(math.Max(ref, 1)) {
+			c.Violate("entropy-line-wrong", fmt.Sprintf("opgen %q printed %q; a fresh equivalent library recipe reports %s, the documented formula gives %.4f", args, lines[0], want, ref), det)
 		}
 		c.Count("entropy_lines_confirmed", 1)
 		return
